@@ -8,16 +8,16 @@ namespace PdshVerif.Mod
 
 /-! ### what is handed to dlopen -/
 
-theorem loadObj_opened (pers : Nat) (s : LoadSt) (fname : Str) (obj : Obj) :
-    (loadObj pers s fname obj).opened = s.opened ++ [fname] := by
-  unfold loadObj
+theorem loadObj_opened (beats : Beats) (pers : Nat) (s : LoadSt) (fname : Str) (obj : Obj) :
+    (loadObjG beats pers s fname obj).opened = s.opened ++ [fname] := by
+  unfold loadObjG
   split <;> rfl
 
-theorem loadFile_opened (uid owner pers : Nat) (s : LoadSt) (f : File) :
-    (loadFile uid owner pers s f).opened = s.opened ∨
-      ((loadFile uid owner pers s f).opened = s.opened ++ [f.fname] ∧
+theorem loadFile_opened (beats : Beats) (uid owner pers : Nat) (s : LoadSt) (f : File) :
+    (loadFileG beats uid owner pers s f).opened = s.opened ∨
+      ((loadFileG beats uid owner pers s f).opened = s.opened ++ [f.fname] ∧
         ∃ st, f.st = some st ∧ fileOk uid owner st = true) := by
-  unfold loadFile
+  unfold loadFileG
   cases hst : f.st with
   | none => simp
   | some st =>
@@ -25,15 +25,15 @@ theorem loadFile_opened (uid owner pers : Nat) (s : LoadSt) (f : File) :
     · right; simp [hok, loadObj_opened]
     · left; simp [hok]
 
-theorem foldl_opened (uid owner pers : Nat) (files : List File) (s : LoadSt) (name : Str)
-    (h : name ∈ (files.foldl (loadFile uid owner pers) s).opened) :
+theorem foldl_opened (beats : Beats) (uid owner pers : Nat) (files : List File) (s : LoadSt) (name : Str)
+    (h : name ∈ (files.foldl (loadFileG beats uid owner pers) s).opened) :
     name ∈ s.opened ∨ ∃ f ∈ files, f.fname = name ∧ ∃ st, f.st = some st ∧ fileOk uid owner st = true := by
   induction files generalizing s with
   | nil => left; simpa using h
   | cons f rest ih =>
     simp only [List.foldl_cons] at h
     rcases ih _ h with h1 | ⟨g, hg, hn, hs⟩
-    · rcases loadFile_opened uid owner pers s f with e | ⟨e, st, hst, hok⟩
+    · rcases loadFile_opened beats uid owner pers s f with e | ⟨e, st, hst, hok⟩
       · rw [e] at h1; exact Or.inl h1
       · rw [e] at h1
         simp only [List.mem_append, List.mem_singleton] at h1
